@@ -8,12 +8,41 @@ pub fn parse(bytes: &[u8]) -> Result<ParsedPacket, String> {
     }
 }
 
+thread_local! {
+    static ARMED: std::cell::Cell<bool> = const { std::cell::Cell::new(false) };
+}
+
 pub fn arm_steps(len: usize) {
+    arm_ceiling(step_ceiling(len));
+}
+
+/// a specific ceiling chosen by a check (the default one of `caught` then stays out of the way)
+pub fn arm_ceiling(c: u64) {
+    ARMED.with(|a| a.set(true));
     verif_hooks::reset();
-    verif_hooks::set_ceiling(step_ceiling(len));
+    verif_hooks::set_ceiling(c);
 }
 
 pub fn disarm_steps() {
+    ARMED.with(|a| a.set(false));
+    verif_hooks::set_ceiling(u64::MAX);
+}
+
+/// Every call of the subject made through `engine::caught` runs under a step ceiling: the one its check armed,
+/// or this default. A loop that passes a hook point and does not end (only a changed library has one) then
+/// ends as a panic the check reports, not as a worker that has to be killed.
+pub const DEFAULT_CEILING: u64 = 200_000_000;
+
+pub fn default_ceiling_on() -> bool {
+    if ARMED.with(|a| a.get()) {
+        return false;
+    }
+    verif_hooks::reset();
+    verif_hooks::set_ceiling(DEFAULT_CEILING);
+    true
+}
+
+pub fn default_ceiling_off() {
     verif_hooks::set_ceiling(u64::MAX);
 }
 
